@@ -245,3 +245,76 @@ func H_C20_concurrent() {
 	vxrt.Assert(testEvents.items[ev] == before+2, "C20:no-lost-outcome-count")
 	vxrt.Assert(len(skippedTests.values) == skipsBefore+2, "C20:no-lost-skip-record")
 }
+
+// summaryCount finds the "<symbol> N snapshot(s) <verb>" line of a printed summary.
+func summaryCount(out, verb string) (int, bool) {
+	for _, l := range strings.Split(out, "\n") {
+		if strings.HasSuffix(l, " snapshot "+verb) || strings.HasSuffix(l, " snapshots "+verb) {
+			f := strings.Fields(l)
+			if len(f) >= 2 {
+				n := 0
+				for _, ch := range f[1] {
+					if ch < '0' || ch > '9' {
+						return 0, false
+					}
+					n = n*10 + int(ch-'0')
+				}
+				return n, true
+			}
+		}
+	}
+	return 0, false
+}
+
+// H_C20_clean_summary: a small program (a passing call, optionally a failing call and a
+// call that records a new snapshot) runs -count times; the summary that Clean prints at the
+// end shows, per outcome, the number of calls that ended in that outcome over the whole
+// process (a line is absent iff that number is 0).
+func H_C20_clean_summary() {
+	vxrt.CI(false)
+	vxrt.EnvFixed("NO_COLOR", "1")
+	vxrt.Flag("test.run", "")
+	count := vxrt.Len("count", 1, vxrt.Param("count", 2))
+	vxrt.Flag("test.count", itoa(count))
+	dir := vxrt.Dir()
+	writeFile(dir+"/f.snap", frame("TestM - 1", "one")+frame("TestM - 2", "two"))
+	c := WithConfig(Dir(dir), Filename("f"))
+	withFail := vxrt.Bool("a-failing-call")
+	withAdd := vxrt.Bool("a-new-snapshot")
+	nPassed, nFailed, nAdded := 0, 0, 0
+	for r := 0; r < count; r++ {
+		t := newT("TestM")
+		c.MatchSnapshot(t, "one")
+		nPassed++
+		if withFail {
+			c.MatchSnapshot(t, "other")
+			nFailed++
+		} else {
+			c.MatchSnapshot(t, "two")
+			nPassed++
+		}
+		if withAdd {
+			c.MatchSnapshot(t, "three")
+			if r == 0 {
+				nAdded++
+			} else {
+				nPassed++
+			}
+		}
+		t.end()
+		vxrt.Assert(len(t.errors) == nFailed/(r+1), "setup:program-outcomes")
+	}
+	Clean(nil)
+	out := vxrt.Stdout()
+	for _, e := range []struct {
+		verb string
+		want int
+	}{{"passed", nPassed}, {"failed", nFailed}, {"added", nAdded}, {"updated", 0}} {
+		n, ok := summaryCount(out, e.verb)
+		if e.want == 0 {
+			vxrt.Assert(!ok, "C20:summary-line-absent-iff-no-such-outcome")
+		} else {
+			vxrt.Assert(ok && n == e.want, "C20:summary-counts-every-call-of-the-process")
+		}
+	}
+}
